@@ -217,6 +217,8 @@ export class Bundler {
   }
 
   public updateFileContent(file_name: string, content: string) {
+    // diagnostics render code frames from fsCache: keep it in sync with the updated text
+    fsCache[file_name] = content;
     return wasm.update_file_content(file_name, content);
   }
 }
